@@ -114,7 +114,8 @@ def unit_contract_tasks(tier, pid):
     if pid not in USES_UNIT_CONTRACTS:
         return []
     from contracts import c06_units as U6
-    return [('unit_contract',) + x for x in U6.tasks(tier) if x[0] in ('prefix', 'convert_from', 'convert', 'storage')]
+    return [('unit_contract',) + x for x in U6.tasks(tier) if x[0] in ('prefix', 'convert_from', 'convert', 'storage',
+                                                                      'cache_transparency')]
 
 
 # Properties decided modulo "plate[selector] addresses the documented wells" (the plate-level contracts build their slices
@@ -142,6 +143,8 @@ def run_selector_contract(pid, *args):
 def run_unit_contract(pid, *args):
     from contracts import c06_units as U6
     out = []
+    if args[0] == 'cache_transparency':
+        return U6.run_cache_transparency(pid)
     for r in U6.run(*args):
         if r['kind'] in ('property', 'aux') or r['verdict'] == 'unsupported':
             out.append(dict(r, name=r['name'].replace('C06/', f'{pid}/', 1)))
